@@ -355,7 +355,9 @@ def c05_cases(seed, tier):
                 fields = fields + tf if order == 0 else tf + fields
                 if r.random() < 0.5:
                     fields.insert(r.randrange(len(fields) + 1), (b"Host", b"x"))
-                head = b"POST /echo HTTP/1.1\r\n" + b"".join(k + b":" + (b" " if r.random() < 0.8 else b"") + v + b"\r\n" for k, v in fields) + b"\r\n"
+                # the framing fields decide, not the method: the same cells on GET / PUT / DELETE (route /gecho)
+                mline = b"POST /echo" if r.random() < 0.6 else r.choice([b"GET", b"PUT", b"DELETE"]) + b" /gecho"
+                head = mline + b" HTTP/1.1\r\n" + b"".join(k + b":" + (b" " if r.random() < 0.8 else b"") + v + b"\r\n" for k, v in fields) + b"\r\n"
                 fr = rfc_framing(cls, tes)
                 if fr[0] == "chunked":
                     body = b"5\r\nhello\r\n0\r\n\r\n"; exp = ["R200:0:" + hx(payload), "R200:0:" + hx(b"1,2")]
@@ -378,7 +380,7 @@ def c05_cases(seed, tier):
                 # pieces, some with the head and some later: the next request still starts right after the body the framing denotes
                 if fr[0] in ("chunked", "fixed") and len(body) >= 2 and (tier != "quick" or r.random() < 0.6):
                     route, ans = r.choice([(b"/noread", b"noread"), (b"/read/1", body[:1] if fr[0] == "fixed" else b"h"), (b"/nothing-here", None)])
-                    head2 = head.replace(b"POST /echo ", b"POST " + route + b" ", 1)
+                    head2 = b"POST " + route + b" " + head.split(b" ", 2)[2]
                     cut = r.randrange(1, len(body))
                     cut2 = r.randrange(cut, len(body))
                     pieces = [body[:cut], body[cut:cut2], body[cut2:]]
